@@ -20,7 +20,7 @@
 //! over unbounded inputs, range partitioning) are not built yet; `unnest` is outside the refsql grammar.
 use crate::c35::Wire;
 use crate::common::*;
-use datafusion::physical_plan::{ExecutionPlan, displayable};
+use datafusion::physical_plan::{ExecutionPlan, ExecutionPlanProperties, displayable};
 use datafusion_proto::bytes::{physical_plan_from_bytes, physical_plan_from_json, physical_plan_to_bytes, physical_plan_to_json};
 use proptest::prelude::*;
 use serde::{Deserialize, Serialize};
@@ -155,7 +155,7 @@ async fn run_async(case: &Case, fx: &Fixture, vname: &str) -> CaseResult {
     };
     let text1 = displayable(back.as_ref()).indent(true).to_string();
     if text0 != text1 {
-        return CaseResult::violation(format!("decoded plan differs in its textual form{}\n  decoded plan:\n{text1}", ctxt())).labels(labels);
+        return CaseResult::violation(format!("decoded plan differs in its textual form: {}{}\n  decoded plan:\n{text1}", first_diff(&text0, &text1), ctxt())).labels(labels);
     }
     let (mut n0, mut n1) = (vec![], vec![]);
     nodes(&plan, &mut n0);
@@ -202,7 +202,7 @@ impl Property for C36 {
         (refsql::case_strategy(&gen_config(tier)), source_strategy(), 0u8..nv, prop_oneof![3 => Just(Wire::Bytes), 1 => Just(Wire::Json)]).prop_map(|(sql, source, variant, wire)| Case { sql, source, variant, wire }).boxed()
     }
     fn budget(&self, tier: Tier) -> Budget {
-        Budget::new(tier.pick(700, 40_000), tier.pick(8, 16)).min_nontrivial(tier.pick(100, 5_000)).case_timeout(120)
+        Budget::new(tier.pick(700, 40_000), tier.pick(8, 16)).min_nontrivial(tier.pick(100, 5_000)).case_timeout(120).shrink(400, 60)
     }
     fn rule(&self) -> String {
         "refsql query (C01 grammar, deterministic) over 3 tables as MemTables or Parquet/CSV listing tables, physical plan built under one of 7 session variants, binary or JSON wire; \
@@ -216,7 +216,15 @@ impl Property for C36 {
             "refsql::deterministic_on decides whether the original plan's rows are a function of the input".into(),
         ]
     }
+    fn known_signature(&self, case: &Case) -> Option<String> {
+        signature_of("C36", "c36", case, || run_inner(case))
+    }
     fn run(&self, case: &Case) -> CaseResult {
+        finish("c36", case, cached("c36", case, || run_inner(case)))
+    }
+}
+
+fn run_inner(case: &Case) -> CaseResult {
         if !refsql::deterministic_on(&case.sql.query, &case.sql.db()) {
             return CaseResult::discard("reference: query not deterministic on this data, or reference evaluation fails");
         }
@@ -237,4 +245,3 @@ impl Property for C36 {
             Err(_) => CaseResult::inconclusive("timeout"),
         }
     }
-}
